@@ -122,6 +122,11 @@ def aggregate(prop, mod, results, problems, tier, seed, wall, known):
             sig = r['crash_signal']
             if sig in (9,):  # killed from outside (OOM...) -> not a verdict
                 inconc.append(f'case killed by signal 9: {stable_hash(case)}')
+            elif r.get('_crash_not_reproduced'):
+                # the external engine has known intermittent memory errors (see known_findings: use-after-free of
+                # derivative buffers); a native crash that does not come back when the very same case is executed again
+                # twice in fresh processes is counted, not judged
+                cov['native_crashes_not_reproduced_on_reexecution'] = cov.get('native_crashes_not_reproduced_on_reexecution', 0) + 1
             else:
                 viol.append(
                     {
@@ -245,6 +250,21 @@ def main(argv=None):
         res, pr = run_workers(mod.__name__, cases, env.ncpu(), shard_timeout, workdir)
         results += res
         problems += pr
+        # a native crash must reproduce: re-execute crashed cases twice in fresh workers
+        crashed = [r for r in results if 'crash_signal' in r and r['crash_signal'] != 9]
+        if crashed and len(crashed) <= 40:
+            for attempt_no in range(2):
+                redo_dir = os.path.join(workdir, f'redo{attempt_no}')
+                os.makedirs(redo_dir, exist_ok=True)
+                again, _ = run_workers(mod.__name__, [r['_case'] for r in crashed], env.ncpu(), shard_timeout, redo_dir)
+                by_case = {json.dumps(a.get('_case'), sort_keys=True): a for a in again}
+                for r in crashed:
+                    a = by_case.get(json.dumps(r['_case'], sort_keys=True))
+                    if a is not None and 'crash_signal' in a:
+                        r['_crash_reproduced'] = True
+            for r in crashed:
+                if not r.get('_crash_reproduced'):
+                    r['_crash_not_reproduced'] = True
         if hasattr(mod, 'extra'):
             # non case-shaped monitors (sanitizer engine runs, repo tests under contracts ...)
             os.environ['BIOMON_WORKDIR'] = workdir
